@@ -328,7 +328,9 @@ def synthetic(draw, pool):
     target = draw(st.sampled_from([None, 0, 1, 65535, 65536, 65537, 131071, 131072, 131073, 200_000, 70_000, 4000]))
     segs = []
     flags = set()
-    ident = 10_000
+    ident = draw(st.sampled_from([10_000, 10_000, -1, 0]))   # one archive in two numbers its segments from 0 or 1
+    if ident <= 0:
+        flags.add("identifier_zero" if ident == -1 else "identifier_one")
     allow_mid = draw(st.integers(0, 5)) == 0   # one archive in six has unknown fields between known ones (a known finding)
     for _ in range(nseg):
         nm = 1 if draw(st.integers(0, 5)) else draw(st.integers(2, 3))
@@ -363,7 +365,7 @@ def synthetic(draw, pool):
             flags.add("merge_patch")
             if nm > 1:
                 flags.add("merge_patch_multi_base")
-        ident += draw(st.integers(1, 1000))
+        ident += draw(st.integers(1, 1000)) if ident >= 10_000 else 1
         segs.append((ident, msgs))
     return {"segs": segs, "target": target, "flags": sorted(flags)}
 
